@@ -188,6 +188,66 @@ func vfMap(m map[string]any, k string) map[string]any {
 	return map[string]any{}
 }
 
+// vfWatchdog ends the process with "VF-HANG" when no event has been recorded for 45 s of REAL time while a goroutine
+// of the code under test sits in a mutex / WaitGroup wait (a deadlock there never becomes "durably blocked", so the
+// virtual clock of a synctest bubble cannot move and nothing else would ever report it). cur names the scenario.
+func vfWatchdog(rec *vfRec, cur func() string) (stop func()) {
+	done := make(chan struct{})
+	go func() {
+		last, still := -1, 0
+		for {
+			select {
+			case <-done:
+				return
+			case <-time.After(time.Second):
+			}
+			rec.mu.Lock()
+			n := rec.seq
+			rec.mu.Unlock()
+			if n != last {
+				last, still = n, 0
+				continue
+			}
+			if still++; still < 45 {
+				continue
+			}
+			buf := make([]byte, 4<<20)
+			buf = buf[:runtime.Stack(buf, true)]
+			if blk := vfProductBlocked(string(buf)); blk != "" {
+				rec.mu.Lock()
+				rec.w.Flush()
+				rec.mu.Unlock()
+				fmt.Printf("VF-HANG scenario=%s\n%s\n", cur(), blk)
+				os.Exit(3)
+			}
+			still = 0 // not attributable to the code under test: go test's own timeout will end it
+		}
+	}()
+	return func() { close(done) }
+}
+
+// vfProductBlocked returns the stack of a goroutine that waits for a lock or a WaitGroup inside a production file.
+func vfProductBlocked(dump string) string {
+	for _, blk := range strings.Split(dump, "\n\n") {
+		i, j := strings.IndexByte(blk, '['), strings.IndexByte(blk, ']')
+		if !strings.HasPrefix(blk, "goroutine ") || i < 0 || j < i {
+			continue
+		}
+		st := blk[i+1 : j]
+		if !(strings.HasPrefix(st, "sync.") || strings.HasPrefix(st, "semacquire")) {
+			continue
+		}
+		for _, ln := range strings.Split(blk, "\n") {
+			ln = strings.TrimSpace(ln)
+			if k := strings.Index(ln, "/internal/"); k >= 0 && strings.Contains(ln, ".go:") && !strings.Contains(ln, "/zz_vf_") && !strings.Contains(ln, "/vf_") &&
+				!strings.Contains(ln, "/src/internal/") && !strings.Contains(ln, "/pkg/mod/") {
+				return blk
+			}
+		}
+	}
+	return ""
+}
+
 // vfAllBlocked reports whether every goroutine other than the caller is parked (not running, not runnable, not in
 // a system call other than the signal receiver), judged from the runtime's own goroutine states.
 func vfAllBlocked() bool {
@@ -221,4 +281,3 @@ func vfAllBlocked() bool {
 	}
 	return true
 }
-
